@@ -358,32 +358,35 @@ fn parse_case(s: &str) -> Option<Case> {
 
 // ---------------------------------------------------------------- descriptor <-> prost
 
-fn enum_proto(e: &EnumD) -> EnumDescriptorProto {
+/// `rich = false`: a skeleton descriptor (names only; what `ReflWire.encFile` models byte for
+/// byte).  `rich = true`: numbers, labels, types as protoc would write them.
+fn enum_proto(e: &EnumD, rich: bool) -> EnumDescriptorProto {
     EnumDescriptorProto {
         name: e.name.clone(),
         value: e
             .values
             .iter()
             .enumerate()
-            .map(|(i, v)| EnumValueDescriptorProto { name: v.clone(), number: Some(i as i32), options: None })
+            .map(|(i, v)| EnumValueDescriptorProto { name: v.clone(), number: if rich { Some(i as i32) } else { None }, options: None })
             .collect(),
         ..Default::default()
     }
 }
-fn msg_proto(m: &Msg) -> DescriptorProto {
+fn msg_proto(m: &Msg, rich: bool) -> DescriptorProto {
     DescriptorProto {
         name: m.name.clone(),
-        nested_type: m.nested.iter().map(msg_proto).collect(),
-        enum_type: m.enums.iter().map(enum_proto).collect(),
+        nested_type: m.nested.iter().map(|x| msg_proto(x, rich)).collect(),
+        enum_type: m.enums.iter().map(|x| enum_proto(x, rich)).collect(),
         field: m
             .fields
             .iter()
             .enumerate()
             .map(|(i, f)| FieldDescriptorProto {
                 name: f.clone(),
-                number: Some(i as i32 + 1),
-                label: Some(1),
-                r#type: Some(9),
+                number: if rich { Some(i as i32 + 1) } else { None },
+                label: if rich { Some(1) } else { None },
+                r#type: if rich { Some(9) } else { None },
+                json_name: if rich { f.clone() } else { None },
                 ..Default::default()
             })
             .collect(),
@@ -395,6 +398,7 @@ fn msg_proto(m: &Msg) -> DescriptorProto {
 /// of `extra`.
 fn file_proto(f: &FileD) -> FileDescriptorProto {
     let x = f.extra;
+    let rich = x != 0;
     FileDescriptorProto {
         name: f.name.clone(),
         package: f.package.clone(),
@@ -422,8 +426,8 @@ fn file_proto(f: &FileD) -> FileDescriptorProto {
         } else {
             None
         },
-        message_type: f.msgs.iter().map(msg_proto).collect(),
-        enum_type: f.enums.iter().map(enum_proto).collect(),
+        message_type: f.msgs.iter().map(|m| msg_proto(m, rich)).collect(),
+        enum_type: f.enums.iter().map(|e| enum_proto(e, rich)).collect(),
         service: f
             .svcs
             .iter()
@@ -432,7 +436,11 @@ fn file_proto(f: &FileD) -> FileDescriptorProto {
                 method: s
                     .methods
                     .iter()
-                    .map(|m| MethodDescriptorProto { name: m.clone(), ..Default::default() })
+                    .map(|m| MethodDescriptorProto {
+                        name: m.clone(),
+                        input_type: if rich { Some(".google.protobuf.Empty".into()) } else { None },
+                        ..Default::default()
+                    })
                     .collect(),
                 options: None,
             })
@@ -452,12 +460,15 @@ fn msg_of_proto(m: &DescriptorProto) -> Msg {
         oneofs: m.oneof_decl.iter().map(|o| o.name.clone()).collect(),
     }
 }
+/// `extra` of a real (protoc-made) descriptor: its content beyond the names is opaque.
+const OPAQUE: u64 = 999;
+
 /// The name skeleton of a real descriptor (used for the reflection services' own descriptors).
 fn file_of_proto(f: &FileDescriptorProto) -> FileD {
     FileD {
         name: f.name.clone(),
         package: f.package.clone(),
-        extra: 0,
+        extra: OPAQUE,
         msgs: f.message_type.iter().map(msg_of_proto).collect(),
         enums: f.enum_type.iter().map(enum_of_proto).collect(),
         svcs: f
@@ -504,14 +515,35 @@ fn build_err(e: &Error) -> String {
     }
 }
 
-fn fd_token(bytes: &[Vec<u8>], all: &[FileDescriptorProto]) -> String {
+fn fnv1a(b: &[u8]) -> u64 {
+    let mut h: u64 = 0xcbf29ce484222325;
+    for x in b {
+        h = (h ^ (*x as u64)).wrapping_mul(0x100000001b3);
+    }
+    h
+}
+
+/// `fd <i> <bytes>`: index of the registered descriptor the answer decodes to (prost, full
+/// equality) and the answer bytes themselves: `-` when descriptor i is opaque (`extra != 0`),
+/// the bytes when at most 96 of them, else their FNV-1a digest.
+fn fd_token(bytes: &[Vec<u8>], all: &[FileDescriptorProto], extras: &[u64]) -> String {
     if bytes.len() != 1 {
         return format!("fds {}", bytes.len());
     }
     match FileDescriptorProto::decode(&bytes[0][..]) {
         Err(_) => "fd-undecodable".into(),
         Ok(fd) => match all.iter().position(|x| *x == fd) {
-            Some(i) => format!("fd {}", i),
+            Some(i) => {
+                let b = &bytes[0];
+                let w = if extras[i] != 0 {
+                    "-".to_string()
+                } else if b.len() <= 96 {
+                    hex(b)
+                } else {
+                    format!("h{:016x}", fnv1a(b))
+                };
+                format!("fd {} {}", i, w)
+            }
             None => "fd-unknown".into(),
         },
     }
@@ -519,7 +551,7 @@ fn fd_token(bytes: &[Vec<u8>], all: &[FileDescriptorProto]) -> String {
 
 macro_rules! drive_version {
     ($fname:ident, $pb:path, $build:ident) => {
-        fn $fname(c: &Case, encoded: &[Option<Vec<u8>>], all: &[FileDescriptorProto]) -> String {
+        fn $fname(c: &Case, encoded: &[Option<Vec<u8>>], all: &[FileDescriptorProto], extras: &[u64]) -> String {
             use $pb as pb;
             use pb::server_reflection_client::ServerReflectionClient;
             use pb::server_reflection_request::MessageRequest;
@@ -573,7 +605,7 @@ macro_rules! drive_version {
                                 match m.message_response {
                                     None => o.push("empty".into()),
                                     Some(MessageResponse::FileDescriptorResponse(f)) => {
-                                        o.push(fd_token(&f.file_descriptor_proto, all))
+                                        o.push(fd_token(&f.file_descriptor_proto, all, extras))
                                     }
                                     Some(MessageResponse::AllExtensionNumbersResponse(e)) => {
                                         if e == pb::ExtensionNumberResponse::default() {
@@ -649,14 +681,22 @@ pub fn execute(case: &str) -> String {
             Reg::B(_) => {}
         }
     }
+    let mut extras: Vec<u64> = Vec::new();
+    for r in &c.regs {
+        match r {
+            Reg::S(fs) | Reg::E(fs) => extras.extend(fs.iter().map(|f| f.extra)),
+            Reg::B(_) => {}
+        }
+    }
     let mut all1 = all.clone();
     let mut all1a = all;
     if c.inc {
         all1.push(own1);
         all1a.push(own1a);
+        extras.push(OPAQUE);
     }
-    let a = drive_v1(&c, &encoded, &all1);
-    let b = drive_v1alpha(&c, &encoded, &all1a);
+    let a = drive_v1(&c, &encoded, &all1, &extras);
+    let b = drive_v1alpha(&c, &encoded, &all1a, &extras);
     format!("v1 {} v1a {}", a, b)
 }
 
